@@ -57,6 +57,15 @@ CHECKS = {
  "C14": ("runtime monitoring: index-free DAG reference model (unique weights) over generated histories on the real Acyclic<DiGraph> / Acyclic<StableDiGraph>, invariant monitor after every operation (acyclicity, order lists exactly the live nodes, edges forward, range/position consistency, raw order maps via the verif-hooks exporter), is_valid_edge prediction monitor",
          "Exploration. ~8*10^4 histories per quick run with frequent rejected insertions, removals of non-last nodes and removals of absent nodes.",
          "Model trusted; insertions only between live nodes (absent-node insertion is undocumented).", "DESIGN.md 5/C14"),
+ "C07": ("runtime monitoring: differential monitor - one generated abstract graph is built in every feasible encoding (9: narrow/wide index types, shuffled histories, vacancies, removed ids, all six graph types) and every algorithm/walker that type-checks runs on each, judged by the same oracle / certificate checker as in C08-C16/C20; a panic, overrun or hang on one encoding is a violation",
+         "Exploration. ~2.2*10^4 abstract graphs x up to 9 encodings x ~30 algorithms per quick run; the (algorithm group x encoding) cells hit are counted in the evidence.",
+         "Oracles trusted; n<=10; two known-finding signatures (page_rank on sparse indices, maximum_matching on directed storage) are matched exactly.", "DESIGN.md 5/C07"),
+ "C17": ("runtime monitoring: round-trip monitor (model sweep of the deserialised value) over graphs reached by mutation histories through serde_json and bincode, and hostile-input monitor (structural JSON mutations, byte-level bincode mutations, over-size u8 streams): every accepted value is swept for self-consistency incl. raw free-list invariants and then exercised with further operations; a panic during deserialisation is a violation; ASan leg",
+         "Exploration. ~8*10^4 streams per quick run.",
+         "Model/sweeps trusted; allocation sizes bounded so that an allocation failure cannot occur; one known-finding signature (index-type-filling graph rejected) is matched exactly.", "DESIGN.md 5/C17"),
+ "C18": ("runtime monitoring: independent byte-level graph6 encoder/decoder (written from the format text) compared with the real encoder/decoder on five graph types; DOT tokenizer + parser over the real Dot output compared statement by statement with the graph, adversarial weight strings, all 160 Config combinations enumerated by case index",
+         "Exploration. ~4.8*10^4 cases per quick run; graph6 for n in 0..=70 (thorough: up to ~320 nodes), the 258047-node end of the range is out of reach and stated as such.",
+         "The harness' graph6 codec and DOT parser are trusted; attribute getters are not exercised (caller's responsibility).", "DESIGN.md 5/C18"),
 }
 REASON_PENDING = "check under construction in this round (runtime monitoring applies; see DESIGN.md section 5)"
 
